@@ -29,6 +29,8 @@ fn answer(idx: u32, token: u64) -> Result<RV, RErr> {
 
 #[derive(Default)]
 struct World {
+    /// every call suspends once before answering (order must not depend on it)
+    suspend: bool,
     chooser: Option<SharedChooser>,
     log: Vec<(String, RV)>,
     answers: Vec<u32>,
@@ -141,6 +143,16 @@ fn shapes(tier: Tier) -> Vec<Shape> {
         let children: Vec<RE> = (0..k.arity).map(|_| probe_leaf(&mut n)).collect();
         out.push(Shape { label: k.label.clone(), tree: (k.build)(children) });
     }
+    // the same cacheable call written twice around a non-cacheable probe
+    for (label, tree) in [
+        ("SameCacheableCallTwice/Add", RE::bin(BinOp::Add, RE::call("k", RE::call("p", RE::Val(RV::Int(0)))), RE::call("k", RE::call("p", RE::Val(RV::Int(0)))))),
+        ("SameCacheableCallTwice/List", RE::List(vec![RE::call("k", RE::call("p", RE::Val(RV::Int(0)))), RE::call("q", RE::Val(RV::Int(1))), RE::call("k", RE::call("p", RE::Val(RV::Int(0))))])),
+        ("SameCacheableCallTwice/If", RE::iff(RE::call("k", RE::call("p", RE::Val(RV::Int(0)))), RE::call("k", RE::call("p", RE::Val(RV::Int(0)))), RE::call("k", RE::call("q", RE::Val(RV::Int(0)))))),
+        ("CacheableInsideNonCacheable", RE::List(vec![RE::call("q", RE::call("k", RE::Val(RV::Int(1)))), RE::call("q", RE::call("k", RE::Val(RV::Int(1)))), RE::call("k", RE::Val(RV::Int(2)))])),
+        ("NestedThenSibling", RE::List(vec![RE::call("q", RE::call("p", RE::Val(RV::Int(1)))), RE::call("q", RE::Val(RV::Int(2))), RE::call("p", RE::Val(RV::Int(3)))])),
+    ] {
+        out.push(Shape { label: label.to_string(), tree });
+    }
     for k in &wide_kinds() {
         let mut n = 0;
         let children: Vec<RE> = (0..k.arity).map(|_| probe_leaf(&mut n)).collect();
@@ -224,6 +236,8 @@ fn shapes(tier: Tier) -> Vec<Shape> {
 
 /// reference environment replaying the recorded answers
 struct ScriptEnv<'a> {
+    /// per-evaluation cache of the cacheable probe `k`
+    cache: BTreeMap<RV, RV>,
     answers: &'a [u32],
     log: Vec<(String, RV)>,
     overrun: bool,
@@ -238,8 +252,13 @@ impl Env for ScriptEnv<'_> {
         None
     }
     fn call(&mut self, name: &str, arg: &RV) -> RRes {
-        if name != "p" && name != "q" {
+        if name != "p" && name != "q" && name != "k" {
             return Err(RErr::UnknownUserFunction(name.to_string()));
+        }
+        if name == "k" {
+            if let Some(v) = self.cache.get(arg) {
+                return Ok(v.clone());
+            }
         }
         let k = self.log.len();
         self.log.push((name.to_string(), arg.clone()));
@@ -248,10 +267,18 @@ impl Env for ScriptEnv<'_> {
                 self.overrun = true;
                 Err(RErr::Unspecified)
             }
-            Some(a) => answer(*a, k as u64).map_err(|e| match e {
-                RErr::UserFunctionError(_, t) => RErr::UserFunctionError(name.to_string(), t),
-                o => o,
-            }),
+            Some(a) => {
+                let r = answer(*a, k as u64).map_err(|e| match e {
+                    RErr::UserFunctionError(_, t) => RErr::UserFunctionError(name.to_string(), t),
+                    o => o,
+                });
+                if name == "k" {
+                    if let Ok(v) = &r {
+                        self.cache.insert(arg.clone(), v.clone());
+                    }
+                }
+                r
+            }
         }
     }
 }
@@ -271,12 +298,13 @@ fn make_ruleset(tree: &RE, world: &Arc<Mutex<World>>) -> Result<RuleSet, String>
             Ok(v) => Ok(v.to_value()),
             Err(_) => Err(anyhow::Error::new(Injected(k))),
         };
-        (r, 0)
+        (r, if g.suspend { 1 } else { 0 })
     });
     let expr = tree.try_to_expr().map_err(|p| format!("constructor panicked: {p}"))?;
     ruleset()
         .with_rule(Rule::new("r", BTreeMap::new(), expr))
         .and_then(|b| b.with_function(probe("p", false, &handler)))
+        .and_then(|b| b.with_function(probe("k", true, &handler)))
         // the second probe goes through the boxed registration entry point
         .and_then(|b| b.with_functions(vec![Box::new(probe("q", false, &handler)) as Box<dyn UserFunction + Send + Sync + 'static>]))
         .map(|b| b.build())
@@ -284,9 +312,10 @@ fn make_ruleset(tree: &RE, world: &Arc<Mutex<World>>) -> Result<RuleSet, String>
 }
 
 /// run one history (forced answers = prefix, default afterwards); returns (obs, log, answers)
-fn run_once(rs: &RuleSet, world: &Arc<Mutex<World>>, ch: Option<SharedChooser>) -> (Obs, Vec<(String, RV)>, Vec<u32>) {
+fn run_once(rs: &RuleSet, world: &Arc<Mutex<World>>, ch: Option<SharedChooser>, suspend: bool) -> (Obs, Vec<(String, RV)>, Vec<u32>) {
     {
         let mut g = world.lock().unwrap();
+        g.suspend = suspend;
         g.chooser = ch;
         g.log.clear();
         g.answers.clear();
@@ -310,7 +339,7 @@ fn run_once(rs: &RuleSet, world: &Arc<Mutex<World>>, ch: Option<SharedChooser>) 
 }
 
 fn check_history(shape_label: &str, tree: &RE, obs: &Obs, log: &[(String, RV)], answers: &[u32], acc: &mut Acc) {
-    let mut env = ScriptEnv { answers, log: Vec::new(), overrun: false, facts: RV::None };
+    let mut env = ScriptEnv { cache: BTreeMap::new(), answers, log: Vec::new(), overrun: false, facts: RV::None };
     let exp = eval(tree, &mut env);
     acc.count("executions", 1);
     acc.outcome(format!("{}:calls={}", obs.class(), log.len()));
@@ -360,8 +389,16 @@ fn explore_shape(shape: &Shape, acc: &mut Acc) -> TreeStats {
         }
     }
     let res = explore(&[], None, 2_000_000, |ch, _| {
-        let (obs, log, answers) = run_once(&rs, &world, Some(ch.clone()));
+        let (obs, log, answers) = run_once(&rs, &world, Some(ch.clone()), false);
         check_history(&shape.label, &shape.tree, &obs, &log, &answers, acc);
+        // the same history with every call suspending once: same invocation order, same result
+        let replay = Arc::new(Mutex::new(crate::engine::choice::Chooser::with_prefix(answers.clone())));
+        let (obs2, log2, answers2) = run_once(&rs, &world, Some(replay), true);
+        if answers2.len() >= answers.len() && answers2[..answers.len()] == answers[..] {
+            check_history(&format!("{}/suspending", shape.label), &shape.tree, &obs2, &log2, &answers2, acc);
+        } else {
+            check_history(&format!("{}/suspending", shape.label), &shape.tree, &obs2, &log2, &answers2, acc);
+        }
     });
     acc.sample("shape", 4, || json!({"shape": shape.label, "expr": shape.tree.unparse()}));
     match res {
@@ -426,8 +463,8 @@ pub fn replay(case: &serde_json::Value) -> i32 {
         }
     };
     let mk = || Arc::new(Mutex::new(crate::engine::choice::Chooser::with_prefix(answers.clone())));
-    let (o1, l1, a1) = run_once(&rs, &world, Some(mk()));
-    let (o2, l2, _) = run_once(&rs, &world, Some(mk()));
+    let (o1, l1, a1) = run_once(&rs, &world, Some(mk()), false);
+    let (o2, l2, _) = run_once(&rs, &world, Some(mk()), false);
     if o1 != o2 || l1 != l2 {
         println!("replay not deterministic");
         return 2;
